@@ -7,6 +7,8 @@ import ShVerif.Proofs.L4PrintGen
 import ShVerif.Proofs.L4ParseWF
 import ShVerif.Proofs.L4Fuel
 import ShVerif.Proofs.L4Flat
+import ShVerif.Proofs.L4PosFirst
+import ShVerif.Proofs.L4LexLines
 namespace ShVerif.Props.C01
 open ShVerif ShVerif.L4
 
@@ -390,6 +392,24 @@ theorem parse_tokens (l : Lang) (src : Bytes) (f : File) (h : parse l src = .ok 
 /-- every token of the lexer sits at a valid position, a word token at the position of its first
     part -/
 theorem lex_positions (src : Bytes) : ∀ tp ∈ lexAll src, tp.ok2 := L4.lexAll_ok2 src
+
+/-- **Statement positions are first-token positions**: in every tree the parser builds, the
+    position of a statement is the position of its first token (`!` included); the left operand of
+    a negated pipeline (`! a | b`: the `!` belongs to the pipeline) keeps the position of the `!`
+    (`Stmt.pk`; subshells and blocks are not entered; `Proofs/L4PosFirst.lean`). -/
+theorem stmt_positions (l : Lang) (src : Bytes) (f : File) (h : parse l src = .ok f) : f.stmts.pkAll :=
+  L4.parse_pk l src f h
+
+/-- a word token that starts on line `n` ends on line `n` + the newlines in its bytes, and that is
+    the largest line number of its parts -/
+theorem word_end_lines (src : Bytes) : ∀ tp ∈ lexAll src, tp.1.ok3 tp.2 := L4.lexAll_ok3 src
+
+/-- where the tokens of printed text sit: the k-th token of `render ps` is on line 1 + the newlines
+    written before the k-th word/operator piece (`expectLines`), whenever no piece glues with the
+    next (`lexChain`, which the printer guarantees: `print_in_Prints`) -/
+theorem printed_token_lines (ps : List Piece) (h : lexChain ps = true) :
+    (lexAll (render ps)).map (fun tp => tp.2.line) = expectLines false 1 ps :=
+  L4.lexAll_pieces_lines ps h
 
 /-! ## Stated, not proved
 
